@@ -1332,13 +1332,19 @@ func compileCase(run *hx.Run, r *hx.RNG, g *gen, repeats int) {
 			run.Violate(sig, desc, []string{op})
 		}
 	}
-	if inputSplitterCycle(m, c) {
+	dotted := false
+	for _, n := range g.names {
+		if strings.Contains(n, ".") {
+			dotted = true // ChainID collisions can legitimately route around a cycle: not judged here
+		}
+	}
+	if !dotted && inputSplitterCycle(m, c) {
 		run.Tag("in:splitter-cycle")
 		if out.err == nil {
 			run.Violate("cycles:splitter-cycle-compiled", "the input has a splitter cycle on the chain's path but compilation succeeded", []string{op})
 		}
 	}
-	if inputRedirectCycle(m, c) {
+	if !dotted && inputRedirectCycle(m, c) {
 		run.Tag("in:redirect-cycle")
 		if out.err == nil {
 			run.Violate("cycles:redirect-cycle-compiled", "the chain's own resolver starts a redirect cycle but compilation succeeded", []string{op})
@@ -1598,6 +1604,53 @@ func (t *sut) chainsOK(names []string) map[string]string {
 	return out
 }
 
+// rechecked lists the chains validateProposedConfigEntryInServiceGraph re-compiles for a write to
+// (kind, name): the entry's own name and the router / splitter / resolver entries that reference it
+// directly (link index, read before the mutation); every chain with an entry for proxy-defaults.
+func (t *sut) rechecked(kind, name string) map[string]bool {
+	out := map[string]bool{}
+	_, entries, err := t.s.ConfigEntries(nil, structs.WildcardEnterpriseMetaInDefaultPartition())
+	if err != nil {
+		panic(err)
+	}
+	if kind != structs.ProxyDefaults {
+		out[name] = true
+	}
+	for _, e := range entries {
+		switch e.GetKind() {
+		case structs.ServiceRouter, structs.ServiceSplitter, structs.ServiceResolver:
+		default:
+			continue
+		}
+		if kind == structs.ProxyDefaults {
+			out[e.GetName()] = true
+			continue
+		}
+		if l, ok := e.(interface{ ListRelatedServices() []structs.ServiceID }); ok {
+			for _, sid := range l.ListRelatedServices() {
+				if sid.ID == name {
+					out[e.GetName()] = true
+				}
+			}
+		}
+	}
+	return out
+}
+
+// reportBreaks: an accepted write must not leave a previously compilable chain uncompilable.
+func reportBreaks(run *hx.Run, op string, names []string, before, after map[string]string, rechecked map[string]bool, replay []string) {
+	for _, n := range names {
+		if before[n] == "ok" && after[n] != "ok" {
+			sig := "store:accepted-write-breaks-indirect-referrer:"
+			if rechecked[n] {
+				sig = "store:accepted-write-breaks-rechecked-chain:"
+			}
+			run.Violate(sig+strings.SplitN(after[n], ":", 2)[0],
+				fmt.Sprintf("%s was accepted but the chain of %q no longer compiles: %s", op, n, after[n]), append([]string(nil), replay...))
+		}
+	}
+}
+
 func storeSequence(run *hx.Run, r *hx.RNG, g *gen, steps int) {
 	if skipCase(run, caseID) {
 		return
@@ -1639,6 +1692,7 @@ func storeSequence(run *hx.Run, r *hx.RNG, g *gen, steps int) {
 		_, rawBefore := t.dump()
 		var op, res string
 		var err error
+		var rech map[string]bool
 		isDelete := r.Chance(25) && len(present) > 0
 		var key string
 		if isDelete {
@@ -1654,6 +1708,7 @@ func storeSequence(run *hx.Run, r *hx.RNG, g *gen, steps int) {
 			kn := strings.SplitN(key, "/", 2)
 			op = "del " + kn[0] + " " + hx.EncS(kn[1])
 			inflight(strings.Join(append(append([]string(nil), replay...), op), "\n"))
+			rech = t.rechecked(kindOf(kn[0]), kn[1])
 			err = guarded(func() error {
 				return t.s.DeleteConfigEntry(t.idx, kindOf(kn[0]), kn[1], structs.DefaultEnterpriseMetaInDefaultPartition())
 			})
@@ -1674,6 +1729,7 @@ func storeSequence(run *hx.Run, r *hx.RNG, g *gen, steps int) {
 			key = c.k + "/" + c.name
 			op = "put " + c.k + " " + c.item
 			inflight(strings.Join(append(append([]string(nil), replay...), op), "\n"))
+			rech = t.rechecked(kindOf(c.k), c.name)
 			err = guarded(func() error { return t.s.EnsureConfigEntry(t.idx, c.e) })
 			run.Tag("store:put-" + c.k)
 		}
@@ -1699,12 +1755,7 @@ func storeSequence(run *hx.Run, r *hx.RNG, g *gen, steps int) {
 			} else {
 				present[key] = true
 			}
-			for _, n := range g.names {
-				if before[n] == "ok" && after[n] != "ok" {
-					run.Violate("store:accepted-write-breaks-chain:"+strings.SplitN(after[n], ":", 2)[0],
-						fmt.Sprintf("%s was accepted but the chain of %q no longer compiles: %s", op, n, after[n]), append([]string(nil), replay...))
-				}
-			}
+			reportBreaks(run, op, g.names, before, after, rech, replay)
 		}
 		before = after
 		run.Line("dump", canonical)
@@ -1726,6 +1777,64 @@ func storeSequence(run *hx.Run, r *hx.RNG, g *gen, steps int) {
 		}
 	}
 	run.Case(strings.Join(replay, "\n"), nontrivial)
+}
+
+// storeWitnesses replays fixed write sequences on every run (DESIGN §2.6: the witness of a known
+// finding is run against the implementation each time).
+func storeWitnesses(run *hx.Run) {
+	names := []string{"b", "c", "d"}
+	px := &mProxy{proto: "http"}
+	sd1 := mService{name: "d", proto: "http"}
+	sp := mSplitter{"b", []mSplit{{10000, "d", ""}}}
+	rt := mRouter{"c", []mRoute{{pfx: "/x", dest: opts{svc: "b"}}}}
+	sd2 := mService{name: "d", proto: "grpc"}
+	type w struct {
+		k, name, item string
+		e             structs.ConfigEntry
+	}
+	seq := []w{
+		{"P", "global", px.enc(), px.real()},
+		{"D", "d", sd1.enc(), sd1.real()},
+		{"S", "b", sp.enc(), sp.real()},
+		{"R", "c", rt.enc(), rt.real()},
+		{"D", "d", sd2.enc(), sd2.real()}, // accepted although chain c (router c -> splitter b -> d) then mismatches
+	}
+	caseID = "sw0"
+	if skipCase(run, caseID) {
+		return
+	}
+	t := &sut{s: state.NewStateStore(nil), idx: 10}
+	run.Line("reset", "ok")
+	replay := []string{"reset"}
+	before := t.chainsOK(names)
+	for _, x := range seq {
+		t.idx++
+		if err := x.e.Normalize(); err != nil {
+			panic(err)
+		}
+		if err := x.e.Validate(); err != nil {
+			panic(err)
+		}
+		op := "put " + x.k + " " + x.item
+		inflight(strings.Join(append(append([]string(nil), replay...), op), "\n"))
+		rech := t.rechecked(kindOf(x.k), x.name)
+		err := guarded(func() error { return t.s.EnsureConfigEntry(t.idx, x.e) })
+		res := "ok"
+		if err != nil {
+			res = "rejected"
+		}
+		run.Line(op, res)
+		replay = append(replay, op)
+		after := t.chainsOK(names)
+		if err == nil {
+			reportBreaks(run, op, names, before, after, rech, replay)
+		}
+		before = after
+	}
+	canonical, _ := t.dump()
+	run.Line("dump", canonical)
+	run.Tag("witness:store-indirect-referrer-protocol")
+	run.Case("store witness 0", true)
 }
 
 // ---------------------------------------------------------------- small-scope exhaustive enumeration
@@ -1853,7 +1962,8 @@ func exhaustive(run *hx.Run, stride int) {
 			}
 			run.Line("put P "+proxy.enc(), "ok")
 			before := t.chainsOK(names)
-			step := func(op string, f func() error) {
+			step := func(op, kind, name string, f func() error) {
+				rech := t.rechecked(kind, name)
 				t.idx++
 				_, rawBefore := t.dump()
 				inflight(strings.Join(append(append([]string(nil), replay...), op), "\n"))
@@ -1873,12 +1983,7 @@ func exhaustive(run *hx.Run, stride int) {
 					}
 				} else {
 					run.Tag("exhaustive:store:accepted")
-					for _, n := range names {
-						if before[n] == "ok" && after[n] != "ok" {
-							run.Violate("store:accepted-write-breaks-chain:"+strings.SplitN(after[n], ":", 2)[0],
-								fmt.Sprintf("%s was accepted but the chain of %q no longer compiles: %s", op, n, after[n]), append([]string(nil), replay...))
-						}
-					}
+					reportBreaks(run, op, names, before, after, rech, replay)
 				}
 				before = after
 			}
@@ -1891,11 +1996,11 @@ func exhaustive(run *hx.Run, stride int) {
 				if err := e.Validate(); err != nil {
 					panic(fmt.Sprintf("candidate %s invalid: %v", c.item, err))
 				}
-				step("put "+c.kind+" "+c.item, func() error { return t.s.EnsureConfigEntry(t.idx, e) })
+				step("put "+c.kind+" "+c.item, kindOf(c.kind), c.name, func() error { return t.s.EnsureConfigEntry(t.idx, e) })
 			}
 			for _, pi := range perm {
 				c := cs[set[pi]]
-				step("del "+c.kind+" "+hx.EncS(c.name), func() error {
+				step("del "+c.kind+" "+hx.EncS(c.name), kindOf(c.kind), c.name, func() error {
 					return t.s.DeleteConfigEntry(t.idx, kindOf(c.kind), c.name, structs.DefaultEnterpriseMetaInDefaultPartition())
 				})
 			}
@@ -2044,10 +2149,11 @@ func main() {
 		compileCase(run, r, g, 8)
 	}
 	lap("compile cases")
+	storeWitnesses(run)
 	for i := 0; i < nStore; i++ {
 		r := run.RNG.Fork(uint64(1_000_000 + i))
 		caseID = fmt.Sprintf("s%d", i)
-		g := &gen{r: r, names: svcNames[:3+r.Intn(2)], peers: false, wild: false, nested: r.Chance(40)}
+		g := &gen{r: r, names: svcNames[:3+r.Intn(2)], peers: r.Chance(40), wild: false, nested: r.Chance(40)}
 		storeSequence(run, r, g, 25)
 	}
 	lap("store sequences")
